@@ -29,6 +29,8 @@ mod c16_subst;
 mod loaddump;
 #[path = "../loadscen.rs"]
 mod loadscen;
+#[path = "../gen_totality.rs"]
+mod gen_totality;
 
 fn main() {
     let args: Vec<String> = std::env::args().collect();
@@ -62,6 +64,7 @@ fn main() {
         "jsondefs" => loaddump::jsondefs(&opts),
         "loadone" => loadscen::loadone(&opts),
         "loadscen" => loadscen::run(&opts),
+        "gen-c04" => gen_totality::run(&opts),
         "c11-one" => c11_expr::one(&opts),
         "c05-one" => c05_digits::one(&opts),
         "c07-one" => gen_names::one(&opts),
